@@ -494,9 +494,12 @@ class Fxp():
 
         # scaling conversion
         if self.scaled:
-            self.upper = self.scale * self.upper + self.bias
-            self.lower = self.scale * self.lower + self.bias
-            self.precision = self.scale * self.precision
+            # (narrow numpy floats as python floats: the limits are not rounded to the parameter's own type)
+            _scale = float(self.scale) if isinstance(self.scale, np.floating) and self.scale.dtype.itemsize < 8 else self.scale
+            _bias = float(self.bias) if isinstance(self.bias, np.floating) and self.bias.dtype.itemsize < 8 else self.bias
+            self.upper = _scale * self.upper + _bias
+            self.lower = _scale * self.lower + _bias
+            self.precision = _scale * self.precision
 
         # re store the value
         if restore_val and _old_val is not None and self.n_frac is not None:
